@@ -151,3 +151,25 @@ package mp4
 //@   loop 3 invariant encOK(p1) ==> ghost(p1).tr == trKids(p0.Children, idx(3), old(ghost(p1).tr))
 //@   loop 4 invariant idx(4) <= len(p0.Children)
 //@   loop 4 invariant encOK(p1) ==> ghost(p1).tr == trKids(p0.Children, idx(4), old(ghost(p1).tr))
+
+// ---- decoder half, separately written pairs: one schema states the decoded fields for every path
+// mdat (io.Reader, SliceReader and lazy path): position, large-size flag, payload length; and the box size is the header's
+// size on every path (also the first sub-claim of C08).
+//@ func (*MdatBox).DataLength
+//@   ensures len(m.DataParts) == 0 ==> result == uint64(len(m.Data))
+//@   assigns nothing
+//@ schema mdatDec func ^DecodeMdat(SR|Lazily)?$
+//@   requires hdrOK(p0)
+//@   ensures result1 == nil ==> result0 != nil
+//@   ensures[C03] result1 == nil ==> typeis(result0, "*MdatBox") && result0.(*MdatBox).StartPos == p1 && result0.(*MdatBox).LargeSize == (p0.Hdrlen > 8) && len(result0.(*MdatBox).DataParts) == 0
+//@ schema mdatDecMem func ^DecodeMdat(SR)?$
+//@   ensures[C03] result1 == nil ==> result0.(*MdatBox).lazyDataSize == 0
+//@ func DecodeMdat
+//@   ensures[C03] result1 == nil ==> uint64(len(result0.(*MdatBox).Data)) == hdr.Size - uint64(hdr.Hdrlen)
+//@   ensures[C08] result1 == nil ==> result0.(*MdatBox).Size() == hdr.Size
+//@ func DecodeMdatSR
+//@   ensures[C03] result1 == nil && sr.(*bits.FixedSliceReader).err == nil ==> uint64(len(result0.(*MdatBox).Data)) == hdr.Size - uint64(hdr.Hdrlen)
+//@   ensures[C08] result1 == nil && sr.(*bits.FixedSliceReader).err == nil ==> result0.(*MdatBox).Size() == hdr.Size
+//@ func DecodeMdatLazily
+//@   ensures[C03] result1 == nil ==> result0.(*MdatBox).lazyDataSize == hdr.Size - uint64(hdr.Hdrlen) && len(result0.(*MdatBox).Data) == 0
+//@   ensures[C08] result1 == nil && hdr.Size > uint64(hdr.Hdrlen) ==> result0.(*MdatBox).Size() == hdr.Size
